@@ -53,7 +53,9 @@ Inductive pc :=
 Definition live (p : pc) : bool :=
   match p with P1 | P2 | P3 | P4 => true | P5 | P6 => false end.
 
-Record thread := mkThread { th_name : N; th_pc : pc; th_sess : Z }.
+(** [th_crashed]: the OnConnect callback panicked: no session value, no
+    notifications; the deferred unmap and Close still run. *)
+Record thread := mkThread { th_name : N; th_pc : pc; th_sess : Z; th_crashed : bool }.
 
 Inductive entry :=
 | Connect (n : N) (s : Z) (t : N)       (* OnConnect(n) returned s, in thread t *)
@@ -78,10 +80,12 @@ Inductive action :=
 | ADisconnect (t : N)
 | AUnmap (t : N)
 | AClose (t : N)
-| ALookup (n : N).
+| ALookup (n : N)
+| AUpgradeFail (t n : N)     (* the websocket upgrade fails: ServeBackName returns before mapping *)
+| ACrash (t : N).            (* callback / OnConnect panics: the deferred unmap and Close run *)
 
 Definition set_pc (t : N) (th : thread) (p : pc) (s : state) : state :=
-  mkState (set t (mkThread (th_name th) p (th_sess th)) (threads s)) (reg s) (ups s) (log s).
+  mkState (set t (mkThread (th_name th) p (th_sess th) (th_crashed th)) (threads s)) (reg s) (ups s) (log s).
 
 Definition pc_eqb (a b : pc) : bool :=
   match a, b with
@@ -96,29 +100,30 @@ Definition step (s : state) (a : action) : option state :=
       match get t (threads s) with
       | Some _ => None
       | None =>
-          Some (mkState (set t (mkThread n P1 0%Z) (threads s))
+          Some (mkState (set t (mkThread n P1 0%Z false) (threads s))
                         (set n t (reg s))         (* delete old, map new: one critical section *)
                         ((n, t) :: ups s) (log s))
       end
   | AConnect t sv =>
       match get t (threads s) with
       | Some th =>
-          if pc_eqb (th_pc th) P1 then
-            Some (mkState (set t (mkThread (th_name th) P2 sv) (threads s)) (reg s) (ups s)
+          if pc_eqb (th_pc th) P1 && negb (th_crashed th) then
+            Some (mkState (set t (mkThread (th_name th) P2 sv false) (threads s)) (reg s) (ups s)
                           (log s ++ [Connect (th_name th) sv t]))
           else None
       | None => None
       end
   | AServeEnd t =>
       match get t (threads s) with
-      | Some th => if pc_eqb (th_pc th) P2 then Some (set_pc t th P3 s) else None
+      | Some th => if pc_eqb (th_pc th) P2 && negb (th_crashed th)
+                   then Some (set_pc t th P3 s) else None
       | None => None
       end
   | ADisconnect t =>
       match get t (threads s) with
       | Some th =>
-          if pc_eqb (th_pc th) P3 then
-            Some (mkState (set t (mkThread (th_name th) P4 (th_sess th)) (threads s)) (reg s) (ups s)
+          if pc_eqb (th_pc th) P3 && negb (th_crashed th) then
+            Some (mkState (set t (mkThread (th_name th) P4 (th_sess th) (th_crashed th)) (threads s)) (reg s) (ups s)
                           (log s ++ [Disconnect (th_name th) (th_sess th) t]))
           else None
       | None => None
@@ -131,7 +136,7 @@ Definition step (s : state) (a : action) : option state :=
                      | Some t' => if t' =? t then del (th_name th) (reg s) else reg s
                      | None => reg s
                      end in
-            Some (mkState (set t (mkThread (th_name th) P5 (th_sess th)) (threads s)) r (ups s) (log s))
+            Some (mkState (set t (mkThread (th_name th) P5 (th_sess th) (th_crashed th)) (threads s)) r (ups s) (log s))
           else None
       | None => None
       end
@@ -141,6 +146,15 @@ Definition step (s : state) (a : action) : option state :=
       | None => None
       end
   | ALookup _ => Some s
+  | AUpgradeFail _ _ => Some s
+  | ACrash t =>
+      match get t (threads s) with
+      | Some th =>
+          if pc_eqb (th_pc th) P1 then
+            Some (mkState (set t (mkThread (th_name th) P4 0%Z true) (threads s)) (reg s) (ups s) (log s))
+          else None
+      | None => None
+      end
   end.
 
 Fixpoint exec (s : state) (acts : list action) : option state :=
